@@ -237,7 +237,16 @@ var verifVP9Key2 = []byte{
 var verifAV1Seq = []byte{10, 11, 0, 0, 0, 66, 167, 191, 228, 96, 13, 0, 64}
 var verifAV1Seq2 = []byte{10, 11, 0, 0, 0, 66, 167, 191, 230, 46, 223, 200, 66}
 
+// High-profile SPS with picture reordering (pic_order_cnt_type 0) of mediacommon's DTS extractor test vector
+var verifBFrameSPS = []byte{
+	0x67, 0x64, 0x00, 0x28, 0xac, 0xd9, 0x40, 0x78, 0x02, 0x27, 0xe5, 0x84, 0x00, 0x00, 0x03, 0x00,
+	0x04, 0x00, 0x00, 0x03, 0x00, 0xf0, 0x3c, 0x60, 0xc6, 0x58,
+}
+
 func verifVideoTrack() *Track {
+	if verifParam("BFRAMES", 0) == 1 {
+		return &Track{Codec: &codecs.H264{SPS: verifBFrameSPS, PPS: []byte{0x08}}, ClockRate: 90000}
+	}
 	switch verifParam("VCODEC", 0) {
 	case 1:
 		return &Track{Codec: &codecs.H265{VPS: verifH265VPS, SPS: verifH265SPS, PPS: verifH265PPS(0)}, ClockRate: 90000}
@@ -302,6 +311,9 @@ func verifSetup() *vRun {
 	layout := verifParam("TRACKS", 0)
 	r := &vRun{}
 	g := &vGhost{variant: variant, pps: []byte{8, 0}, sps: verifTestSPS}
+	if verifParam("BFRAMES", 0) == 1 {
+		g.sps, g.pps = verifBFrameSPS, []byte{0x08}
+	}
 	switch verifParam("VCODEC", 0) {
 	case 1:
 		g.sps, g.pps = verifH265SPS, verifH265PPS(0)
